@@ -19,7 +19,7 @@ HASH_SHARDS = [0, 1, 2]      # parameter ORDER is part of the property: the gene
 PROFILE = grammar.profile(
     sig_variants=True, p_custom=1.0, p_signature=1.0, p_reserved_field=0.3, p_foreign_request=0.4, p_create=0.8,
     p_update=0.7, p_get=0.6, p_delete=0.4, p_list=0.3, p_sstream=0.2, p_cstream=0.0, p_bidi=0.0, p_lro=0.2,
-    p_service_config=0.3, p_yaml=0.05, transports=["grpc", "grpc", "grpc+rest"], p_value_fields=0.5, p_two_services=0.5, p_param_name_collision=0.012, p_deprecated_flattened=0.4)
+    p_service_config=0.3, p_yaml=0.05, transports=["grpc", "grpc", "grpc+rest"], p_value_fields=0.5, p_struct_fields=0.2, p_two_services=0.5, p_param_name_collision=0.012, p_deprecated_flattened=0.4)
 
 BUDGET = {
     "quick": {"worlds": 150, "runs": 60, "wall_cap": 300, "world_wall": 90},
@@ -27,7 +27,7 @@ BUDGET = {
 }
 REQUIRED_PROBES = ["kwargs_call", "mixed_call_rejected", "dotted_param", "reserved_param", "repeated_param", "map_param",
                    "message_param", "falsy_presence_value", "foreign_request", "async_kwargs", "subset_of_params",
-                   "signature_order_checked", "concurrent_flattened_callers", "flattened_call_retried_while_others_run"]
+                   "signature_order_checked", "concurrent_flattened_callers", "flattened_call_retried_while_others_run", "repeated_struct_param"]
 
 
 def gen_spec(rng):
@@ -68,10 +68,14 @@ def rand_leaf_value(rng, parent_desc, fd):
     """Valuation-form value for one field (may be falsy on purpose)."""
     if values._is_map(fd) or fd.label == FD.LABEL_REPEATED or fd.type == FD.TYPE_MESSAGE:
         tmp = {}
-        for _ in range(6):
-            tmp = values.rand_valuation(rng, parent_desc, 0, 2, 1.0)
-            if fd.name in tmp:
-                break
+        values.GENERATE_STRUCT[0] = True
+        try:
+            for _ in range(6):
+                tmp = values.rand_valuation(rng, parent_desc, 0, 2, 1.0)
+                if fd.name in tmp:
+                    break
+        finally:
+            values.GENERATE_STRUCT[0] = False
         if fd.name in tmp:
             v = tmp[fd.name]
             if fd.type == FD.TYPE_MESSAGE and fd.label != FD.LABEL_REPEATED and isinstance(v, dict) and rng.random() < 0.25 \
@@ -175,9 +179,9 @@ def gen_ops(spec, rng, codec, fs, s, m, oid):
     ops = [dict(base, id=oid + "k", form="kwargs", kwargs=kw)]
     val = oracle.request_valuation(ops[0])
     rep_value = any(_leaf_fd(desc, p)[1].label == FD.LABEL_REPEATED and _leaf_fd(desc, p)[1].type == FD.TYPE_MESSAGE
-                    and _leaf_fd(desc, p)[1].message_type.full_name == "google.protobuf.Value" for p in kw)
+                    and _leaf_fd(desc, p)[1].message_type.full_name in ("google.protobuf.Value", "google.protobuf.Struct") for p in kw)
     if not rep_value:
-        # (a list of google.protobuf.Value cannot be given to a proto-plus constructor: such values only travel as kwargs)
+        # (a list of google.protobuf.Value / Struct cannot be given to a proto-plus constructor: such values only travel as kwargs)
         ops.append(dict(base, id=oid + "r", form=rng.choice(["msg", "dict"]), request=val))
         if kw and rng.random() < 0.5:
             ops.append(dict(base, id=oid + "b", form="both", request=val, kwargs=kw))
@@ -395,6 +399,8 @@ def judge(spec, scenario, history):
                     _bump(probes, "repeated_param")
                     if fd.type == FD.TYPE_MESSAGE and fd.message_type.full_name == "google.protobuf.Value":
                         _bump(probes, "repeated_value_param")
+                    if fd.type == FD.TYPE_MESSAGE and fd.message_type.full_name == "google.protobuf.Struct":
+                        _bump(probes, "repeated_struct_param")
                 elif fd.type == FD.TYPE_MESSAGE:
                     _bump(probes, "message_param")
                 v = spc["value"]
